@@ -7,3 +7,9 @@ package enum
 //@ func IDPatterns.Matches
 //@   props C08
 //@   pure
+
+// Detect only fills a map it allocates itself
+//@ func Detect
+//@   props C08
+//@   assigns nothing
+//@   ensures !result1 ==> result0.Members == nil
